@@ -5,7 +5,7 @@ For each seeded/<name>/ (patch.diff, demo.py, meta.json): copy /repo to a scratc
 confirm the demonstration passes there, apply the patch, confirm the repository's own tests still pass the baseline and the
 demonstration now fails, run the property's quick check (and, if that misses, the thorough check) with VERIF_REPO pointing
 at the copy, remove the copy.  Prints one row per change; writes seeded/RESULTS.json.
-Usage: tools/run_seeded.py [name-substring ...] [--quick-only] [--in-repo]
+Usage: tools/run_seeded.py [name-substring ...] [--quick-only] [--in-repo] [--checks-only]
   --in-repo : apply the patch to /repo itself (git apply), run, and undo (git checkout -- .) - only when nothing else uses /repo
 """
 import glob, json, os, shutil, subprocess, sys, tempfile
@@ -13,10 +13,13 @@ HERE = os.path.dirname(os.path.dirname(os.path.abspath(__file__)))
 args = [a for a in sys.argv[1:] if not a.startswith('--')]
 quick_only = '--quick-only' in sys.argv
 in_repo = '--in-repo' in sys.argv
+checks_only = '--checks-only' in sys.argv      # regression runs: demo and repository tests were verified when the change arrived
 results = {}
 respath = os.environ.get('SEEDED_RESULTS') or os.path.join(HERE, 'seeded', 'RESULTS.json')   # parallel runs: one file each, merged afterwards
 if os.path.exists(respath):
     results = json.load(open(respath))
+main = os.path.join(HERE, 'seeded', 'RESULTS.json')
+prior = json.load(open(main)) if os.path.exists(main) else {}
 
 
 def run_check(prop, tier, repo):
@@ -55,17 +58,21 @@ for d in sorted(glob.glob(os.path.join(HERE, 'seeded', '*', ''))):
             r = subprocess.run(['/venv/bin/python', os.path.join('_out', k, 'demo.py')], cwd=dst, capture_output=True,
                                text=True, env=dict(os.environ, PYTHONPATH=dst), timeout=600)
             return r.returncode
-        row['demo_clean'] = run_demo()
+        row['demo_clean'] = run_demo() if not checks_only else prior.get(name, {}).get('demo_clean')
         r = subprocess.run(['git', 'apply', os.path.join(d, 'patch.diff')], cwd=dst, capture_output=True, text=True)
         if r.returncode != 0:
             row['apply'] = 'FAILED: ' + r.stderr[:200]
         else:
             try:
                 row['apply'] = 'ok'
-                row['demo_patched'] = run_demo()
-                t = subprocess.run([os.path.join(HERE, 'tools', 'baseline.py'), dst], capture_output=True, text=True,
-                                   env=dict(os.environ, PYTHONPATH=dst))
-                row['tests'] = 'pass' if t.returncode == 0 else 'FAIL'
+                if checks_only:
+                    row['demo_patched'] = prior.get(name, {}).get('demo_patched')
+                    row['tests'] = prior.get(name, {}).get('tests')
+                else:
+                    row['demo_patched'] = run_demo()
+                    t = subprocess.run([os.path.join(HERE, 'tools', 'baseline.py'), dst], capture_output=True, text=True,
+                                       env=dict(os.environ, PYTHONPATH=dst))
+                    row['tests'] = 'pass' if t.returncode == 0 else 'FAIL'
                 row['checks'] = {}
                 for prop in props:
                     rc, nv, clause, tail = run_check(prop, 'quick', dst)
